@@ -80,9 +80,9 @@ CHECKS = {
              text='Repository side only: eav_init/eav_setup/eav_is_email/eav_free/is_6531_email/is_utf8_domain of the three backends agree under the backend vocabulary; the abstract object state (initialized flag, resolver live) is explored over every history init.(setup|is_email)*.free with the path summaries as transitions: create only when absent, destroy only when present, flag equals truth, nothing left after eav_free; FORCE_IDN selects exactly one source set with its -DHAVE flag.',
              note='libidn and idnkit are not installed: their source sets are parsed, never compiled. Equivalence of the libraries\' conversions is the statement\'s own hypothesis.',
              ref='DESIGN.md section 3 / C18'),
- 'C20': dict(level='other', technique='path rules over every loop iteration of parse_file and over sanitize_utf8/main: guards of offset reads and static-buffer writes, abort reachability, verdict-per-line structure, trimming order',
-             text='Robustness: the len - 1 access is dominated by len > 0, every copy into and index of the 2 KiB echo buffer is dominated by a guard on the same position and length, no abort/assert is reachable from main. Verdict structure: each of the ~240 iteration paths prints exactly one PASS/FAIL unless the line is a comment, on eav_is_email(eav, view, strlen(view)) for the trimmed view, FAIL followed by eav_errstr; main keeps eav_init defaults and calls eav_setup once; trimming order as stated. The echo clause is declined and listed as not decided.',
-             note='getline/stdio behaviour assumed. sanitize() in bin/main.h is unreachable from main (used by tests only).',
+ 'C20': dict(level='other', technique='path rules over every loop iteration of parse_file and over sanitize_utf8/main (guards of offset reads and echo-buffer writes against a pointer/capacity model, abort reachability, verdict-per-line structure, trimming order, getline contract); interval abstract interpretation of the tool\'s own UTF-8 decoder; loop-invariant check of the echo loop (symbolic linear offsets, one iteration per head state x decoder outcome)',
+             text='Robustness: the len - 1 access is dominated by len > 0; the echo buffer is a static pointer/capacity pair assigned only together from a successful realloc of the stored size, and every copy into it and index of it is dominated by a guard on the same position, length and capacity (escape width 4 only for c in 0..255, 10 otherwise); no abort/assert is reachable from main; the variables handed to getline are written by nothing else. Verdict structure: each of the ~240 iteration paths prints exactly one PASS/FAIL unless the line is a comment, on eav_is_email(eav, view, strlen(view)) for the trimmed view, followed by the echo of that view, FAIL followed by eav_errstr; main keeps eav_init defaults and calls eav_setup once; trimming order as stated. Echo clause: the tool\'s decoder accepts exactly RFC 3629 and reports character offsets (R20.5); on a clean line every iteration of sanitize_utf8 copies text[frontier, next offset) to the same offset of the buffer, no escape or truncation exit is reachable, every exit leaves the buffer equal to the line (R20.6, induction over the loop).',
+             note='getline/stdio behaviour assumed; allocation of the echo buffer assumed to succeed for the echo clause. What is printed for lines that are not clean (escapes, truncation of ill-formed lines) is decided only as far as memory safety. sanitize() in bin/main.h is unreachable from main (used by tests only).',
              ref='DESIGN.md section 3 / C20'),
 }
 
